@@ -131,6 +131,8 @@ class AccessMixin(object):
         return [(st, VBuiltin('logger.' + name, _logger_method(name), bound=v))]
       if cls == 'CONF':
         return [(st, self.conf_value(st, name))]
+      if cls.startswith('gen:') and name == 'send':
+        return [(st, VBuiltin('%s.send' % cls, lambda ex, s, a, k: ex.co_resume(s, a[0], a[1]), bound=v))]
       if cls.startswith('exc:'):
         oid = self.oid_of(v)
         if oid is not None and (oid, name) in st.pyheap:
@@ -295,7 +297,12 @@ class AccessMixin(object):
   def _subscript(self, st, c, k, node):
     from pyvc.values import VSnap, VSeq
     if isinstance(c, VSeq):
-      return [(st, self.from_val(st, z3.Select(c.t, vv.as_intlike(k)), None))]
+      el = z3.Select(c.t, vv.as_intlike(k))
+      if el.sort() == z3.StringSort():
+        return [(st, VStr(el))]
+      if el.sort() == z3.IntSort():
+        return [(st, VInt(el))]
+      return [(st, self.from_val(st, el, None))]
     if isinstance(c, VSnap):
       if c.how == 'dict':
         return [(st, self.from_val(st, z3.Select(c.b, self.to_val(st, k)), c.elem))]
@@ -561,6 +568,20 @@ class AccessMixin(object):
     except Unsupported:
       return fresh('str', z3.StringSort())
 
+  def hex8_of(self, st, n):
+    """Trusted: '%08x' % n for 0 <= n < 2**32 is 8 hex digits whose big-endian value (binascii.unhexlify followed by
+    struct.unpack('>I')) is n."""
+    self.ctx.use_trusted("'%08x' % n / binascii.unhexlify / struct.unpack('>I') round trip")
+    f = z3.Function('fmt_08x', z3.IntSort(), z3.StringSort())
+    unhex = z3.Function('unhex', z3.StringSort(), z3.StringSort())
+    ishex = z3.Function('is_hex', z3.StringSort(), z3.BoolSort())
+    be32 = z3.Function('be32', z3.StringSort(), z3.IntSort())
+    t = f(n)
+    st.axiom(z3.Implies(z3.And(n >= 0, n < 2**32),
+                        z3.And(z3.Length(t) == 8, ishex(t), z3.Length(unhex(t)) == 4, be32(unhex(t)) == n)))
+    st.axiom(z3.Implies(n >= 0, z3.Length(t) >= 8))
+    return t
+
   def str_percent(self, st, fmt, arg):
     """'%s' % args: arity obligation for constant formats, opaque/concatenated result."""
     f = z3.simplify(fmt.t)
@@ -592,6 +613,9 @@ class AccessMixin(object):
             simple = False
         elif p == '%%':
           res = z3.Concat(res, z3.StringVal('%'))
+        elif p == '%08x' and simple and ai < len(args) and vv.as_intlike(args[ai]) is not None and not isinstance(args[ai], VBool):
+          res = z3.Concat(res, self.hex8_of(st, vv.as_intlike(args[ai])))
+          ai += 1
         elif p.startswith('%') and len(p) > 1:
           simple = False
         else:
